@@ -529,7 +529,7 @@ class Check(core.PropertyCheck):
     def scenarios(self, ctx, models):
         g = models[0].graph
         behs = g.edge_cover(ctx.rng, max_len=6, tail=0)
-        reps = 1 if ctx.quick else 3
+        reps = 1 if ctx.quick else 2
         for b in behs:
             if len(b) < 3:
                 continue  # Configure only
@@ -544,7 +544,7 @@ class Check(core.PropertyCheck):
                 if len(ops) >= 2:
                     yield core.Scenario({"ops": ops}, predicted=core.predicted_events(b), source="simulate")
         rng = random.Random(ctx.seed + 49)
-        for _ in range(3000 if ctx.quick else 40000):
+        for _ in range(3000 if ctx.quick else 20000):
             yield core.Scenario({"random": rng.randrange(1 << 30)}, source="random")
 
     # ---- execution -------------------------------------------------------------------------------------------
